@@ -11,17 +11,15 @@ const hookPkg = "github.com/mimiro-io/datahub/internal/verifhook"
 func (e *envState) rebuildDurable(p *pathState, upto int) {
 	eff := e.effects[:upto]
 	for _, d := range e.disks {
-		d.ents = nil
+		d.reset()
 		d.open = false
-		d.version = 0
 	}
 	e.files = map[string]value{}
 	e.dirs = map[string]bool{}
 	for _, x := range eff {
 		switch x.kind {
 		case "kv":
-			x.disk.version++
-			x.disk.ents = p.applyWritesV(x.disk.ents, x.writes, x.disk.version)
+			x.disk.apply(p, x.writes)
 		case "fs":
 			switch {
 			case x.remove:
